@@ -203,6 +203,76 @@ def updateN : Nat → Val → Val → Option Val
   | n + 2, e, .pair a b => (updateN n e b).map (.pair a)
   | _, _, _ => none
 
+/-! ### Extension 2, phase A: bytes ↔ numbers (Michelson reference: `NAT`, `INT` and `BYTES` use the big-endian
+encoding, two's complement for `int`, and `BYTES` returns the *shortest* such encoding, the empty string for 0) -/
+
+/-- value of a big-endian byte string: `Σ bᵢ · 256^(n-1-i)` -/
+def beNat : List Nat → Nat
+  | [] => 0
+  | b :: bs => b * 256 ^ bs.length + beNat bs
+
+/-- two's complement reading of a big-endian byte string of `n` bytes (the empty string is 0): the unsigned value, minus
+`256^n` when the top bit is set (i.e. the unsigned value is at least half of `256^n`) -/
+def beInt (bs : List Nat) : Int :=
+  if bs ≠ [] ∧ 256 ^ bs.length ≤ 2 * beNat bs then (beNat bs : Int) - 256 ^ bs.length else beNat bs
+
+/-- the `L` base-256 digits of `n mod 256^L`, most significant first -/
+def beDigits : Nat → Nat → List Nat
+  | 0, _ => []
+  | L + 1, n => (n / 256 ^ L) % 256 :: beDigits L n
+
+/-- the least `k' ≥ k` with `p k'`, looking at `fuel` candidates (`k + fuel` if there is none among them) -/
+def leastFrom (p : Nat → Bool) : (fuel : Nat) → (k : Nat) → Nat
+  | 0, k => k
+  | fuel + 1, k => if p k then k else leastFrom p fuel (k + 1)
+
+/-- BYTES on a natural number: its shortest big-endian encoding — the `L` digits for the least `L` with `n < 256^L`
+(0 ↦ the empty string; `L ≤ n`, so `n` candidates suffice) -/
+def natBytes (n : Nat) : List Nat := beDigits (leastFrom (fun L => decide (n < 256 ^ L)) n 0) n
+
+/-- `z` is representable in `L` bytes in two's complement: `-2^(8L-1) ≤ z < 2^(8L-1)` (in zero bytes: only 0) -/
+def fitsInt (z : Int) (L : Nat) : Bool :=
+  if L = 0 then z == 0 else decide (-(2 ^ (8 * L - 1) : Int) ≤ z ∧ z < 2 ^ (8 * L - 1))
+
+/-- BYTES on an integer: its shortest two's complement big-endian encoding — the digits of `z mod 256^L` for the least `L`
+in which `z` is representable (0 ↦ the empty string) -/
+def intBytes (z : Int) : List Nat :=
+  beDigits (leastFrom (fitsInt z) (z.natAbs + 1) 0) (z % 256 ^ (leastFrom (fitsInt z) (z.natAbs + 1) 0)).toNat
+
+/-- NAT: the natural number a byte string encodes (big-endian) -/
+def natV : Val → Res Val
+  | .bytes b => .ok (.num .nat (beNat b))
+  | _ => .stuck
+
+/-- BYTES: the shortest encoding of a natural number / of an integer (a `nat` holds a natural number) -/
+def bytesV : Val → Res Val
+  | .num .nat x => if 0 ≤ x then .ok (.bytes (natBytes x.toNat)) else .stuck
+  | .num .int x => .ok (.bytes (intBytes x))
+  | _ => .stuck
+
+/-- VOTING_POWER: voting power of a delegate — an environment reading (a `nat`) -/
+def votingPowerV (env : Env) : Val → Res Val
+  | .atom .keyHash s => numOk .nat (env.votingPower s)
+  | _ => .stuck
+
+/-- HASH_KEY: hash of a public key (the function is a parameter: `env.hashes.hashKey`) -/
+def hashKeyV (env : Env) : Val → Res Val
+  | .atom .key s => .ok (.atom .keyHash (env.hashes.hashKey s))
+  | _ => .stuck
+
+/-- **extension 2, rules of the form `i / a : S ⇒ r : S`**.  `NEVER` has no rule (there is no value of type `never`). -/
+def unV (env : Env) (i : Instr) (a : Val) : Res Val :=
+  match i with
+  | .NAT => natV a
+  | .BYTES => bytesV a
+  | .VOTING_POWER => votingPowerV env a
+  | .HASH_KEY => hashKeyV env a
+  | _ => .stuck
+
+def stepExt (env : Env) : Instr → List Val → Res (List Val)
+  | i, a :: st => (unV env i a).bind fun r => .ok (r :: st)
+  | _, [] => .stuck
+
 /-- further rules without sub-programs (kept apart from `step` so that either pattern match stays small) -/
 def stepMore (env : Env) : Instr → List Val → Res (List Val)
   | .TOTAL_VOTING_POWER, st => (numOk .nat env.totalVotingPower).bind fun r => .ok (r :: st)
@@ -216,7 +286,7 @@ def stepMore (env : Env) : Instr → List Val → Res (List Val)
   -- `CAST t` / `RENAME`: identity on a top element of type `t` / on any top element (annotations are not modelled)
   | .CAST t, x :: st => if typeOf x = t then .ok (x :: st) else .stuck
   | .RENAME, x :: st => .ok (x :: st)
-  | _, _ => .stuck
+  | i, st => stepExt env i st
 
 /-- the rules for instructions without sub-programs -/
 def step (env : Env) : Instr → List Val → Res (List Val)
@@ -298,6 +368,7 @@ def step (env : Env) : Instr → List Val → Res (List Val)
   | .ABS, .num .int x :: st => .ok (.num .nat (Int.ofNat x.natAbs) :: st)
   | .ISNAT, .num .int x :: st => .ok ((if 0 ≤ x then .some (.num .nat x) else .none .nat) :: st)
   | .INT, .num .nat x :: st => .ok (.num .int x :: st)
+  | .INT, .bytes b :: st => .ok (.num .int (beInt b) :: st)      -- big-endian two's complement
   | .COMPARE, a :: b :: st =>
     if typeOf a = typeOf b then
       match compare a b with
